@@ -1151,7 +1151,7 @@ func checkC19Width(c C19WidthCase) error {
 }
 
 func TestC19Widths(t *testing.T) {
-	r := NewRec(t, "C19", "exhaustive: abs, round, round(1), number_format(0) and number_format(2) on context values of 13 Go number types (int, int8..int64, uint, uint8..uint64, a named int, float32, float64) x 24 numerals that fit the type (0, small, the bounds of each width, +-(2^53 + 1) and the int64 / uint64 bounds for abs, halves and quarters for the floats); oracle: exact decimal arithmetic (math/big); non-trivial = the type is not int or float64")
+	r := NewRec(t, "C19", "exhaustive: abs, round, round(1), number_format(0) and number_format(2) on context values of 13 Go number types (int, int8..int64, uint, uint8..uint64, a named int, float32, float64) x 24 numerals that fit the type (0, small, the bounds of each width, +-(2^53 + 1) and the int64 / uint64 bounds for abs and round, 1e20 and -1e19 as float64 for round, halves and quarters for the floats); oracle: exact decimal arithmetic (math/big); non-trivial = the type is not int or float64")
 	defer r.Flush()
 	r.SetExhaustive()
 	nums := []string{"0", "7", "-5", "100", "-100", "127", "-128", "255", "32767", "-32768", "65535", "2147483647", "-2147483648", "4294967295", "1234567", "-1234567", "0.5", "-2.25", "1.5", "-0.75", "1024.125"}
@@ -1159,8 +1159,13 @@ func TestC19Widths(t *testing.T) {
 	for _, kind := range []string{"int", "int8", "int16", "int32", "int64", "uint", "uint8", "uint16", "uint32", "uint64", "named", "float32", "float64"} {
 		for _, f := range []string{"abs", "round", "round1", "number_format", "number_format2"} {
 			ns := nums
-			if f == "abs" && kind != "float32" && kind != "float64" {
+			if (f == "abs" || f == "round" || f == "round1") && kind != "float32" && kind != "float64" {
+				// integers beyond 2^53 and at the bounds of their type: abs and round are exact
 				ns = append(append([]string{}, nums...), big53...)
+			}
+			if f == "round" && kind == "float64" {
+				// floats beyond the integer range
+				ns = append(append([]string{}, nums...), "100000000000000000000", "-10000000000000000000")
 			}
 			for _, n := range ns {
 				c := C19WidthCase{Kind: kind, Num: n, Filter: f}
@@ -1233,3 +1238,51 @@ func TestC19MapEnds(t *testing.T) {
 }
 
 func init() { reg("C19.mapends", checkC19MapEnds) }
+
+
+// ---- filter arguments of every number width --------------------------------------------------------------------
+
+type C19ArgWidthCase struct {
+	Kind string `json:"kind"`
+	Expr string `json:"expr"` // uses a (= 2) and b (= 3)
+}
+
+// checkC19ArgWidth: a filter argument that holds 2 is 2, whatever Go number type carries it.
+func checkC19ArgWidth(c C19ArgWidthCase) error {
+	a, ok1 := c19WidthValue(c.Kind, "2")
+	b, ok2 := c19WidthValue(c.Kind, "3")
+	if !ok1 || !ok2 {
+		return nil
+	}
+	src := "{{ " + c.Expr + " }}"
+	base := map[string]interface{}{"s": "abcdefgh", "xs": []interface{}{1, 2, 3, 4, 5, 6}, "f": 3.14159, "n": 1234.5678}
+	typed, plain := map[string]interface{}{"a": a, "b": b}, map[string]interface{}{"a": 2, "b": 3}
+	for k, v := range base {
+		typed[k], plain[k] = v, v
+	}
+	rt, rp := render1(src, typed), render1(src, plain)
+	if rp.Failed() {
+		return fmt.Errorf("harness: %s fails with int arguments: %v", src, rp)
+	}
+	if rt.Failed() || rt.Out != rp.Out {
+		return fmt.Errorf("%s with a = %s(2), b = %s(3) gives %v; with a = 2, b = 3 as int it gives %v", src, c.Kind, c.Kind, rt, rp)
+	}
+	return nil
+}
+
+func TestC19ArgWidths(t *testing.T) {
+	r := NewRec(t, "C19", "exhaustive: 12 Go number types (int8..int64, uint..uint64, a named int, float32, float64) as the arguments of slice (start, length, both, negative), round, number_format, batch-free list filters (slice on lists) and first-of-slice, 12 expressions; oracle: the result with the same numbers as int; non-trivial = the type is not int")
+	defer r.Flush()
+	r.SetExhaustive()
+	for _, kind := range []string{"int8", "int16", "int32", "int64", "uint", "uint8", "uint16", "uint32", "uint64", "named", "float32", "float64"} {
+		for _, ex := range []string{"s|slice(a)", "s|slice(a, b)", "s|slice(0, a)", "s|slice(-b, a)", "s|slice(-a)", "xs|slice(a)|join(',')", "xs|slice(a, b)|join(',')", "f|round(a)", "f|round(b, 'floor')", "n|number_format(a)", "n|number_format(b, ',', '.')", "xs|slice(a, b)|first"} {
+			c := C19ArgWidthCase{Kind: kind, Expr: ex}
+			r.Case(kind+ex, true, c)
+			if err := checkC19ArgWidth(c); err != nil {
+				r.FailEnumKey(t, "C19.argwidth", kind, c, err)
+			}
+		}
+	}
+}
+
+func init() { reg("C19.argwidth", checkC19ArgWidth) }
